@@ -198,6 +198,15 @@ func (o *oenum) paths(f *ssa.Function, st0 map[ssa.Value]string, depth int) []op
 				}
 				if bo, ok := cond.(*ssa.BinOp); ok && isCmp(bo.Op) {
 					l, r := o.term(bo.X, st), o.term(bo.Y, st)
+					// an inlined helper's error result is known on this path ("err" / "nil"): the test is decided
+					if (bo.Op == token.EQL || bo.Op == token.NEQ) && isErrType(bo.X.Type()) && (l == "err" || l == "nil") && (r == "err" || r == "nil") && (l == "nil" || r == "nil") {
+						k := 1
+						if (l == r) == (bo.Op == token.EQL) != truthFlip {
+							k = 0
+						}
+						walk(b.Succs[k], 0, b, st, conds, onPath)
+						return
+					}
 					for k, truth := range []bool{true, false} {
 						walk(b.Succs[k], 0, b, st, append(append([]ocond{}, conds...), ocond{l, r, bo.Op, truth != truthFlip}), onPath)
 					}
